@@ -3571,11 +3571,114 @@ def gen_registry(read, num):
     return lines, broken
 
 
+C07_BOOK_FNS = ["send", "send_to_name", "send_remote", "link", "unlink", "monitor", "demonitor"]
+
+
+def gen_c07book(read, num):
+    """C07, node level: every exit and every bookkeeping step of the node operations in source order — what is recorded
+    on local process handles and drawn from the node's counters before the table lookup, the one lock and the one
+    `Connection` call, what follows the call (`?` = the error is passed on and nothing recorded is taken back), every `Ok`
+    tail, every `return`, every branch on the target's node.  `Props/C07.lean` pins the table: an early `Ok` (an operation
+    that answers without writing) or bookkeeping moved behind the write is a broken proof obligation."""
+    broken, lines = [], []
+    node = read("crates/edp_node/src/node.rs")
+    table = []
+    if node is None:
+        broken.append("node.rs missing")
+    else:
+        tok = re.compile(
+            r"(?P<ret>\breturn\b)|(?P<ok>Ok\((?:\(\)|reference)\))|(?P<localq>ifto\.node==self\.name\{)|(?P<els>\}else\{)"
+            r"|(?P<lookup>self\.connection_handle\(node_name\))|(?P<pid>self\.pid_allocator\.allocate\(\))"
+            r"|(?P<uid>self\.reference_counter\.fetch_add\(1,Ordering::SeqCst\)asu64\+1)|(?P<ctr>self\.reference_counter\.[a-z_]+\()"
+            r"|(?P<ref>self\.make_reference\(\))|(?P<lock>conn\.lock\(\)\.await)"
+            r"|conn_guard\.(?P<call>[a-z_]+)\((?:[^;()]|\([^()]*\))*\)\.await(?P<q>\?)?;"
+            r"|(?P<nc>Err\(Error::NodeNotConnected\()|Err\(Error::(?P<err>[A-Za-z]+)|ok_or_else\(\|\|Error::(?P<err2>[A-Za-z]+)"
+            r"|_handle\.(?P<book>[a-z_]+)\(|(?P<noproc>self\.signal_noproc_exit\()"
+            r"|self\.registry\.(?P<reg>[a-z_]+)\(|self\.(?P<deleg>send_local|send_remote|send|whereis)\("
+            r"|(?P<other>conn_guard\.|\.links\b|\.monitors\b|self\.connections\.)")
+        for fn in C07_BOOK_FNS:
+            body = _fn_body(node, r"(?:pub\s+)?async\s+fn\s+" + fn + r"\s*(?:<[^>]*>)?\s*\(\s*&self")
+            if body is None:
+                broken.append(f"node.rs: async fn {fn}(&self, ..) not found")
+                continue
+            steps = []
+            for m in tok.finditer(_strip_ws(body)):
+                if m.group("call"):
+                    steps.append("call:" + m.group("call"))
+                    steps.append("fail:propagate" if m.group("q") else "fail:ignored")
+                elif m.group("book"):
+                    b = m.group("book")
+                    steps.append("notify" if b == "send" else "book:" + b)
+                elif m.group("other"):
+                    broken.append(f"node.rs {fn}: a step the translator does not know: {m.group('other')}")
+                else:
+                    steps.append("return" if m.group("ret") else "ok" if m.group("ok") else "local?" if m.group("localq")
+                                 else "else" if m.group("els") else "lookup" if m.group("lookup") else "draw:pid" if m.group("pid")
+                                 else "draw:unlink_id+1" if m.group("uid") else "counter:other" if m.group("ctr")
+                                 else "draw:ref" if m.group("ref") else "lock" if m.group("lock") else "not_connected" if m.group("nc")
+                                 else ("err:" + m.group("err")) if m.group("err") else ("err:" + m.group("err2")) if m.group("err2")
+                                 else "noproc" if m.group("noproc") else ("reg:" + m.group("reg")) if m.group("reg")
+                                 else "delegate:" + m.group("deleg"))
+            table.append((fn, steps))
+
+    def strs(xs):
+        return "[" + ", ".join('"' + x + '"' for x in xs) + "]"
+
+    lines.append("/-- node.rs: every bookkeeping step, draw, lookup, lock, `Connection` call (followed by what happens when it fails),")
+    lines.append("branch on the target's node and exit (`ok`, `return`, errors) of the node-level send-side operations, in source order -/")
+    lines.append("def C07_NODE_BOOK : List (String × List String) := [" + ", ".join(f'("{f}", {strs(st)})' for f, st in table) + "]")
+    lines.append("")
+    return lines, broken
+
+
+def gen_c17pid(read, num):
+    """C17, where the reply pid of a call comes from: the initializer of `let reply_to_pid = …;` in
+    `rpc_call_raw_with_timeout` (string literals as `_`), every `self.<name>` the function touches (distinct, in source
+    order) and the fields of `struct Node`.  A reply pid taken from anywhere but one fresh `pid_allocator.allocate()` per
+    call (a pool, a cache, a counter of its own) changes one of the three."""
+    broken, lines = [], []
+    node = read("crates/edp_node/src/node.rs")
+    init, fields, node_fields = "", [], []
+    if node is None:
+        broken.append("node.rs missing")
+    else:
+        body = _fn_body(node, r"pub\s+async\s+fn\s+rpc_call_raw_with_timeout\s*\(")
+        if body is None:
+            broken.append("node.rs: fn rpc_call_raw_with_timeout body not found")
+        else:
+            b = _strip_ws(re.sub(r'"(?:[^"\\]|\\.)*"', "_", body))
+            ms = re.findall(r"let(?:mut)?reply_to_pid(?::[A-Za-z:<>]+)?=([^;]*);", b)
+            if len(ms) != 1:
+                broken.append("node.rs rpc_call_raw_with_timeout: exactly one `let reply_to_pid = …;` expected")
+            else:
+                init = ms[0]
+            for f in re.findall(r"\bself\.([a-z_]+)", b):
+                if f not in fields:
+                    fields.append(f)
+        m = re.search(r"pub\s+struct\s+Node\s*\{([^}]*)\}", node)
+        if not m:
+            broken.append("node.rs: pub struct Node { .. } not found")
+        else:
+            node_fields = re.findall(r"(?m)^\s*(?:pub(?:\([a-z]+\))?\s+)?([a-z_]+)\s*:", re.sub(r"//[^\n]*", "", m.group(1)))
+
+    def strs(xs):
+        return "[" + ", ".join('"' + x.replace("\\", "\\\\").replace('"', '\\"') + '"' for x in xs) + "]"
+
+    lines.append("/-- `rpc_call_raw_with_timeout`: what `reply_to_pid` is bound to (string literals as `_`) -/")
+    lines.append(f"def RPC_REPLY_PID_INIT : String := {strs([init])[1:-1]}")
+    lines.append("/-- the `self.<name>` the function touches, distinct, in source order -/")
+    lines.append(f"def RPC_SELF_FIELDS : List String := {strs(fields)}")
+    lines.append("/-- the fields of `struct Node` -/")
+    lines.append(f"def NODE_FIELDS : List String := {strs(node_fields)}")
+    lines.append("")
+    return lines, broken
+
+
 def run(read, emit, num):
     """One generated module per part (`Generated/Misc<Part>.lean`), so that a change of the source rebuilds only the models
     and theorems that read that part; `Generated/Misc.lean` imports them all (for convenience; nothing in the library
     imports it). A part may use the definitions of an earlier part: it then imports that part's module."""
-    parts = (gen_c16, gen_c09, gen_c04, gen_c15, gen_c13, gen_c18, gen_c19, gen_state, gen_c20, gen_c05, gen_c08, gen_c10, gen_c11, gen_c07, gen_c14, gen_c16b, gen_c02, gen_c01, gen_c17, gen_c06, gen_mailbox, gen_c04conn, gen_c15any, gen_registry)
+    parts = (gen_c16, gen_c09, gen_c04, gen_c15, gen_c13, gen_c18, gen_c19, gen_state, gen_c20, gen_c05, gen_c08, gen_c10, gen_c11, gen_c07, gen_c14, gen_c16b, gen_c02, gen_c01, gen_c17, gen_c06, gen_mailbox, gen_c04conn, gen_c15any, gen_registry, gen_c07book, gen_c17pid)
     defined = {}   # generated name -> module that defines it
     mods = []
     for part in parts:
